@@ -62,6 +62,26 @@ theorem totalOut_exists (m : ByteMachine μ) (fin : Bool) (s₀ : μ) (input : L
     exact (hr'.quiescent_unique hr (Or.inl ⟨_, hd'⟩) (Or.inl ⟨_, hd⟩)).1
   · exact ⟨[], fun D st eof rest hr hd => absurd ⟨D, st, eof, rest, hr, hd⟩ h, hb [] s₀ false input (Reach.refl _ _ _)⟩
 
+/-- If the machine comes to rest (finished, or starved of input for good) having written `X`, everything it can have written before is a
+    prefix of `X` — so `|X| < lim` discharges the bound `hb` below. -/
+theorem reach_prefix_of_quiescent {m : ByteMachine μ} {fin : Bool} {a : μ} {ea : Bool} {ra X : List UInt8} {b : μ} {eb : Bool}
+    {rb : List UInt8} (hq : Reach m fin a ea ra X b eb rb) (q : Quiescent m fin b eb rb) {D : List UInt8} {c : μ} {ec : Bool}
+    {rc : List UInt8} (h : Reach m fin a ea ra D c ec rc) : ∃ o, X = D ++ o := by
+  rcases h.linear hq with ⟨o', _, he⟩ | ⟨o', hr, he⟩
+  · exact ⟨o', he⟩
+  · obtain ⟨h0, _⟩ := q.reach_eq hr
+    subst h0
+    exact ⟨[], by simpa using he.symm⟩
+
+theorem bound_of_quiescent {m : ByteMachine μ} {fin : Bool} {s₀ : μ} {input X : List UInt8} {b : μ} {eb : Bool} {rb : List UInt8}
+    (hq : Reach m fin s₀ false input X b eb rb) (q : Quiescent m fin b eb rb) (lim : Nat) (hl : X.length < lim) :
+    ∀ D st eof rest, Reach m fin s₀ false input D st eof rest → D.length < lim := by
+  intro D st eof rest h
+  obtain ⟨o, ho⟩ := reach_prefix_of_quiescent hq q h
+  have := congrArg List.length ho
+  simp only [List.length_append] at this
+  omega
+
 /-- **`simple_code()` behind a byte-machine next coder, any slicing.** `hb`: the next coder writes fewer than `lim` bytes on this input
     (`lim` = the length limit of the filter's prefix stability; only x86 has one). Then after any slicing: the next coder is at a point
     `D` of its one trace; what `simple_code()` has written is a prefix of the filter applied to `D`; the return code is `LZMA_OK` or
